@@ -540,6 +540,28 @@ def op_inv_dup_inherited(draw: Draw, spec: Spec) -> Result:
     return mmgen.render(spec), f"{d.name} and its ancestor {a.name}: invariants described {src.desc!r} [{kind}]"
 
 
+def op_inv_dup_two_parents(draw: Draw, spec: Spec) -> Result:
+    """Two parents that are unrelated to each other carry invariants with one description; a class inherits both."""
+    cands = []  # type: List[Tuple[Any, Any, Any]]
+    for d in spec.classes:
+        for i, b1 in enumerate(d.bases):
+            for b2 in d.bases[i + 1:]:
+                l1 = [b1] + spec.ancestors(b1)
+                l2 = [b2] + spec.ancestors(b2)
+                only1 = [x for x in l1 if x not in l2 and spec.cls(x).invs]
+                only2 = [x for x in l2 if x not in l1 and spec.cls(x).invs]
+                for x in only1:
+                    for y in only2:
+                        cands.append((d, spec.cls(x), spec.cls(y)))
+    if not cands:
+        return None
+    d, a, b = pick(draw, cands)
+    src = pick(draw, a.invs)
+    tgt = pick(draw, b.invs)
+    tgt.desc = src.desc
+    return mmgen.render(spec), f"{d.name} inherits from {a.name} and {b.name}: both carry an invariant described {src.desc!r}"
+
+
 def _doc_op(role: str) -> Callable[[Draw, Spec], Result]:
     def op(draw: Draw, spec: Spec) -> Result:
         with_props = [k for k in spec.classes if k.props]
@@ -669,7 +691,9 @@ OPS = {
     "nested-optional": _shape_op("nested-optional"),
     "list-of-optional": _shape_op("list-of-optional"),
     "inv-desc-dup-same-class": op_inv_dup_same,
-    "inv-desc-dup-inherited": op_inv_dup_inherited,
+    "inv-desc-dup-inherited": lambda draw, spec: (
+        (op_inv_dup_two_parents(draw, spec) if draw(st.integers(0, 2)) == 0 else None) or op_inv_dup_inherited(draw, spec)
+    ),
     "doc-dangling-class": _doc_op("class"),
     "doc-dangling-attr": _doc_op("attr"),
     "doc-dangling-const": _doc_op("const"),
